@@ -14,6 +14,7 @@
  *   file <name> <bytes>           creates a file with exactly these bytes
  *   mkdir <name>
  *   setenv <name> <value|->
+ *   chdir <name> / rmdir <name>   working directory games ("@W" in any name = absolute path of the private directory)
  *   prog <name>                   libast_set_program_name()  (outside init..free: the name string is the program's)
  *   reg <name> <h>                spifconf_register_context(name, handler number h)
  *   regbi <name>                  spifconf_register_builtin(name, harness built-in)
@@ -232,7 +233,6 @@ static void cpu_watch(int secs) { (void) secs; }
 #endif
 
 /* ---- helpers ------------------------------------------------------------------------------------- */
-static char topdir[PATH_MAX], workdir[PATH_MAX];
 static size_t heap_at_init;
 
 /* fills 64 kB of stack below the caller with a non-zero pattern so that uninitialised locals of the library are
@@ -280,10 +280,27 @@ static unsigned char *cr_bytes(const char *t, size_t *len, int nul) {
     if (len) *len = n;
     return out;
 }
-static char *argstr(const char *tok) {          /* exact-size heap copy; NULL for "-" */
+static char topdir[PATH_MAX], workdir[PATH_MAX];
+/* exact-size heap copy; NULL for "-"; every "@W" in the text stands for the absolute path of the script's private directory */
+static char *argstr(const char *tok) {
+    char *s, *at, *out; size_t wl;
     if (!strcmp(tok, "-")) return NULL;
-    return (char *) cr_bytes(tok, NULL, 1);
+    s = (char *) cr_bytes(tok, NULL, 1);
+    if (!strstr(s, "@W")) return s;
+    wl = strlen(workdir);
+    out = (char *) malloc(strlen(s) / 2 * wl + strlen(s) + 1);
+    out[0] = 0;
+    {
+        char *p = s, *o = out;
+        while ((at = strstr(p, "@W"))) { memcpy(o, p, (size_t) (at - p)); o += at - p; memcpy(o, workdir, wl); o += wl; p = at + 2; }
+        strcpy(o, p);
+    }
+    free(s);
+    s = strdup(out);                 /* exact size again */
+    free(out);
+    return s;
 }
+static int same_dir(const struct stat *a, const struct stat *b) { return a->st_dev == b->st_dev && a->st_ino == b->st_ino; }
 static void sb_snap(vh_sb *b) {
     struct spifconf_verif v;
     spifconf_verif_snapshot(&v);
@@ -374,6 +391,14 @@ static const char *vh_step(const vh_step_t *st, vh_sb *ret, vh_sb *state) {
         sb_bool(ret, mkdir(name, 0755) == 0);
         made_add(name);
         free(name);
+    } else if (!strcmp(op, "chdir")) {                /* process-wide: the working directory (vh_end goes back to the private directory) */
+        char *name = argstr(st->args[0]);
+        sb_bool(ret, chdir(name) == 0);
+        free(name);
+    } else if (!strcmp(op, "rmdir")) {
+        char *name = argstr(st->args[0]);
+        sb_bool(ret, rmdir(name) == 0);
+        free(name);
     } else if (!strcmp(op, "prog")) {                 /* process-wide setting: the program name (magic line of config files) */
         char *name = argstr(st->args[0]);
         libast_set_program_name(name);
@@ -405,19 +430,26 @@ static const char *vh_step(const vh_step_t *st, vh_sb *ret, vh_sb *state) {
         char *name = argstr(st->args[0]);
         char *dir = st->nargs > 1 ? argstr(st->args[1]) : NULL, *path = st->nargs > 2 ? argstr(st->args[2]) : NULL;
         int fd0 = count_fds(), fd1; size_t i;
+        struct stat cw0, cw1; int cwd_same;
         spif_charptr_t r;
+        if (stat(".", &cw0)) memset(&cw0, 0, sizeof(cw0));
         calls_reset();
         dirty_stack(0xAA);
         cpu_watch(5);
         r = spifconf_parse((spif_charptr_t) name, (spif_charptr_t) dir, (spif_charptr_t) path);
         cpu_watch(0);
         fd1 = count_fds();
+        if (stat(".", &cw1)) memset(&cw1, 0xff, sizeof(cw1));
+        cwd_same = same_dir(&cw0, &cw1);
+        {   /* later steps of the script expect the private directory if that is where the call was made */
+            struct stat ws;
+            if (!cwd_same && !stat(workdir, &ws) && same_dir(&ws, &cw0) && chdir(workdir)) { }
+        }
         sb_cstr(ret, (const char *) r);
         if (r) free(r);
-        if (chdir(workdir)) { }                  /* spifconf_parse() may have changed directory */
         sb_reset(state);
 #ifdef CONF_WRAP
-        sb_printf(state, "{fds=%d,ncalls=%lu,snap=", fd1 - fd0, (unsigned long) ncalls);
+        sb_printf(state, "{cwd=%c,fds=%d,ncalls=%lu,snap=", cwd_same ? 'T' : 'F', fd1 - fd0, (unsigned long) ncalls);
         sb_snap(state);
         sb_events(state);
         sb_putc(state, '}');
@@ -450,7 +482,7 @@ static const char *vh_step(const vh_step_t *st, vh_sb *ret, vh_sb *state) {
         fd1 = count_fds();
         if (r) sb_int(ret, (long) strlen((const char *) r)); else sb_putc(ret, '-');     /* length only: keeps the token small */
         sb_reset(state);
-        sb_printf(state, "{fds=%d,ncalls=0,snap=", fd1 - fd0);
+        sb_printf(state, "{cwd=T,fds=%d,ncalls=0,snap=", fd1 - fd0);
         sb_snap(state);
         sb_events(state);
         sb_putc(state, '}');
